@@ -17,7 +17,9 @@ RULE = ("one PRNG. pwl main stream: 2-7 keypoints, units 1-3, none/increasing, a
         "documented unit-broadcast forms of keypoint_output_parameters with units>1, plus invalid configurations "
         "incl. keypoint_input_min == keypoint_input_max (model and code must reject alike); the (batch, 1, size) form must "
         "be accepted and equal the hand-tiled call. huge stream: |param| 1e3..1e4 (oracle only, F-C15-b). degenerate "
-        "stream: num_keypoints = 0 for CDF / cdf_fn (both and the model must reject). cdf stream: input dims 1-6, "
+        "stream: num_keypoints = 0 for CDF / cdf_fn (both and the model must reject); sparsity_factor 0 / negative for "
+        "CDF / cdf_fn (both and the model must raise ValueError); input_dim = 0 (NaN for mean / geometric_mean: "
+        "F-C15-f; model: no numbers). cdf stream: input dims 1-6, "
         "sparsity 1-3, 1-4 keypoints, relu6/sigmoid, mean/none/geometric_mean, fixed/learned_shared/learned_per_input "
         "scaling with raw (possibly negative) values pushed through the layer's constraint; cdf_fn with None / "
         "broadcast / exp-transformed scaling; every base point paired with copies raising ONE input.")
@@ -389,6 +391,8 @@ def do_case(case, rng=None):
     return run_zero_keypoints(case)
   if s in ("forms", "invalid"):
     return run_forms(case, rng)
+  if case.get("pair") == "cdf-degenerate":
+    return alt.run_cdf_degenerate(case)
   if case.get("pair") == "cdffn-layer":
     real = alt.run_cdf(case)
     return alt.cdf_lines(case, real), real
@@ -403,6 +407,10 @@ def check_any(ctx, case, real, replies):
     return check_zero_keypoints(ctx, case, real, replies)
   if s in ("forms", "invalid"):
     return check_forms(ctx, case, real, replies)
+  if case.get("pair") == "cdf-degenerate":
+    # sparsity_factor < 1: must be a ValueError (fixed F-C14-a); input_dim = 0: NaN breaks "in [0, 1]" (F-C15-f)
+    return alt.check_cdf_degenerate(ctx, case, real, replies, keyf=lambda which, cls: dict(fn=which, cls=cls),
+                                    fail=lambda *a, **k: fail(ctx, *a, **k), c15=True)
   if case.get("pair") == "cdffn-layer":
     return check_cdf(ctx, case, real, replies)
   return check_pwl(ctx, case, real, replies)
@@ -422,6 +430,8 @@ def run(ctx):
     cases.append(c)
   for _ in range(ctx.n(3, 12)):
     cases.append(gen_zero_keypoints(rng))
+  for _ in range(ctx.n(20, 200)):
+    cases.append(alt.gen_cdf_degenerate(rng))
   for _ in range(ctx.n(260, 5000)):
     cases.append(gen_cdf(rng))
   items, lines = [], []
